@@ -380,3 +380,12 @@ Theorem C14_gen_judge_accepts_partial : forall b regs W ri,
   judge regs W ri (run_request_gen (spec_params_b b) W ri) = true.
 Proof. exact gen_judge_accepts. Qed.
 Print Assumptions C14_gen_judge_accepts_partial.
+
+(* which object the built-in predicates of a view consult (regenerated from pyramid/predicates.py): containment=
+   looks at request.context -- the traversed resource, also while an EXCEPTION view is looked up, where the view's own
+   context argument is the exception --, physical_path= at its context argument; no other built-in predicate looks at
+   either (fail-closed fact).  The exception-view request of the model ([exc_request_raw]) follows these flags. *)
+Theorem C14_predicate_receivers_ok :
+  (containment_reads_request_context, physical_path_reads_request_context) = (true, false).
+Proof. exact predicate_receivers_ok. Qed.
+Print Assumptions C14_predicate_receivers_ok.
